@@ -10,6 +10,8 @@ Definition caus_of (e : exec) (me : nat) : vv :=
   match get_thread e me with Some t => t_caus t | None => vv_new end.
 Definition rel_of (e : exec) (me : nat) : vv :=
   match get_thread e me with Some t => t_rel t | None => vv_new end.
+Definition dpor_of (e : exec) (me : nat) : vv :=
+  match get_thread e me with Some t => t_dpor t | None => vv_new end.
 Definition set_caus (e : exec) (me : nat) (v : vv) : exec :=
   upd_thread e me (fun t => th_set_caus t v).
 
@@ -110,7 +112,9 @@ Definition release_lock (e : exec) (me m : nat) : exec :=
       | None => e
       | Some _ =>
           let sy := sync_store (mx_sync s) (caus_of e me) (rel_of e me) Release in
-          let e := upd_object e m (fun _ => OMutex (mkMutex (mx_seqcst s) None (mx_last s) sy)) in
+          (* the release is a DPOR access made at the releasing thread's most recent branch point *)
+          let acc := Some (mkAccess (pos (e_path e) - 1) (dpor_of e me)) in
+          let e := upd_object e m (fun _ => OMutex (mkMutex (mx_seqcst s) None acc sy)) in
           map_others e me (pending_on m) set_runnable
       end
   end.
@@ -159,14 +163,15 @@ Definition release_read (e : exec) (me r : nat) : mres :=
   | None => MFail e (PanicModel 11)
   | Some s =>
       let sy := sync_store (rw_sync s) (caus_of e me) (rel_of e me) Release in
+      let acc := Some (mkAccess (pos (e_path e) - 1) (dpor_of e me)) in
       match rw_lock s with
       | Some (RLRead rs) =>
           let rs' := set_remove me rs in
           match rs' with
           | [] =>
-              let e := upd_object e r (fun _ => ORwLock (mkRw None (rw_last s) sy)) in
+              let e := upd_object e r (fun _ => ORwLock (mkRw None acc sy)) in
               MOk (map_others e me (pending_on r) set_runnable)
-          | _ => MOk (upd_object e r (fun _ => ORwLock (mkRw (Some (RLRead rs')) (rw_last s) sy)))
+          | _ => MOk (upd_object e r (fun _ => ORwLock (mkRw (Some (RLRead rs')) acc sy)))
           end
       | _ => MFail e PanicRwInvalid
       end
@@ -177,7 +182,8 @@ Definition release_write (e : exec) (me r : nat) : mres :=
   | None => MFail e (PanicModel 11)
   | Some s =>
       let sy := sync_store (rw_sync s) (caus_of e me) (rel_of e me) Release in
-      let e := upd_object e r (fun _ => ORwLock (mkRw None (rw_last s) sy)) in
+      let acc := Some (mkAccess (pos (e_path e) - 1) (dpor_of e me)) in
+      let e := upd_object e r (fun _ => ORwLock (mkRw None acc sy)) in
       MOk (map_others e me (pending_on r) set_runnable)
   end.
 
@@ -220,7 +226,7 @@ Definition get_chan (e : exec) (h : nat) : option chan_state :=
 Definition get_arc (e : exec) (k : nat) : option arc_state :=
   match nth_error (e_objects e) k with Some (OArc s) => Some s | _ => None end.
 Definition arc_set (s : arc_state) (cnt : nat) (sy : vv) : arc_state :=
-  mkArc cnt sy (arc_last_inc s) (arc_last_dec s) (arc_last_inspect s) (arc_last_mod s).
+  mkArc cnt sy (arc_last_inc s) (arc_last_dec s) (arc_last_inspect s).
 
 Definition get_atomic (e : exec) (a : nat) : option atomic_state :=
   match nth_error (e_objects e) a with Some (OAtomic s) => Some s | _ => None end.
@@ -697,7 +703,7 @@ Definition exec_micro (e : exec) (me : nat) (m : micro) : mres :=
 
   | MArcGetMut k i unwrap =>
       if slot_present e k i
-      then MOk (push_cont e me [MBranch k ARefDec BNever; MArcGetMutPost k i unwrap])
+      then MOk (push_cont e me [MBranch k AInspect BNever; MArcGetMutPost k i unwrap])
       else MOk (log_op e me RX)
 
   | MArcGetMutPost k i unwrap =>
